@@ -216,6 +216,15 @@ Definition C14_check (r : record) (recmsg summsg : list (list Z)) : bool :=
 Definition C14_check_batch (b : list (record * list (list Z) * list (list Z))) : bool :=
   forallb (fun t => C14_check (fst (fst t)) (snd (fst t)) (snd t)) b.
 
+(* What a subscriber of the two ports may see: the messages of the published records (each still decoding to
+   its own record) and NOTHING else - "every record published on the pulse port is a two-part message ...",
+   so a message that is not the message of a published record (a keep-alive, a stray frame, several records
+   glued into one message) violates the property.  [stray] = the received messages that the harness could not
+   attribute to a published record. *)
+Definition C14_check_port (b : list (record * list (list Z) * list (list Z)))
+                          (stray : list (list (list Z))) : bool :=
+  C14_check_batch b && match stray with [] => true | _ => false end.
+
 (* ---------- the domain of the property: records whose fields fit the fixed-width header ---------- *)
 
 Definition fits (r : record) : Prop :=
